@@ -73,6 +73,24 @@ def _blk_chunk(raws):
     return out, strips
 
 
+def _tok_chunk(items):
+    from graphql.utilities import strip_ignored_characters
+    from graphql import GraphQLSyntaxError
+    out, strips = [], []
+    for toks, sep in items:
+        text = sep.join(toks)
+        try:
+            st = strip_ignored_characters(text)
+            if strip_ignored_characters(st) != st:
+                out.append(("strip-not-idempotent", lexbind.cps(text), {"once": st}))
+            strips.append({"s": lexbind.cps(text), "t": lexbind.cps(st)})
+        except GraphQLSyntaxError:
+            pass
+        except Exception as e:  # noqa: BLE001
+            out.append(("strip-raises", lexbind.cps(text), type(e).__name__))
+    return out, strips
+
+
 STRIPV = r'''---- MODULE StripV ----
 EXTENDS Lexical, IOUtils
 Cases == JsonDeserialize(IOEnv.CASES)
@@ -217,6 +235,18 @@ def run(tier: str, rd):
         blkstrips += strips
         for cls, cp, detail in out:
             vd.violation(cls, {"code_points": cp, "text": lexbind.from_cps(cp)}, detail)
+    # every ordered pair (and the string-like triples) of representative tokens, separated by ignored material: stripping must
+    # keep them apart exactly where the grammar would otherwise read them differently
+    reps = ["a", "_b1", "1", "-0", "1.5", "1e3", '""', '"x"', '"\\""', '""""""', '"""b"""', '"""\n c\n"""', '"""\\""""""', "$", "&", "(", ")", "...", ":", "=", "@", "[", "]",
+            "{", "|", "}", "!"]
+    strs = [t for t in reps if t.startswith('"')]
+    seqs = [(x, y) for x in reps for y in reps] + [(x, y, z) for x in strs for y in strs for z in strs]
+    pair_out, pair_strips = [], []
+    for out, strips in pmap(_tok_chunk, [(q, sep) for q in seqs for sep in (" ", "\n", ",", " #c\n")], chunk=2000):
+        pair_strips += strips
+        for cls, cp, detail in out:
+            vd.violation(cls, {"code_points": cp, "text": lexbind.from_cps(cp)}, detail)
+    blkstrips += pair_strips
     # strip outputs of the enumerated lexable strings, validated by TLC
     if tier == "quick":
         rng0 = random.Random(seed())
